@@ -239,3 +239,23 @@ prop('C16',
      level_note='Trusted: Lean kernel, standard axioms, harness. Modelled not verified: v_args wrappers (exercised in three styles), deepcopy.',
      technique='Lean 4 structural-induction proofs (embedded chain = transform-after; stack machine = recursion) + free-callback differential testing',
      design_ref='DESIGN.md §5 C16')
+
+prop('C12',
+     modules=['LarkVerif.Cache', 'LarkVerif.Props.C12', 'LarkVerif.Extracted'],
+     theorems=['Props.C12.cache_is_only_an_optimisation', 'Props.C12.invariant_preserved', 'Props.C12.invariant_initially', 'Props.C12.open_leaves_valid_file', 'Props.C12.key_shape_injective',
+               'Props.C12.unhashable_options_are_declared'],
+     fingerprints=['lark/lark.py:Lark.__init__', 'lark/lark.py:Lark._load', 'lark/lark.py:Lark.save'],
+     rule='random histories (4-12 operations) against ONE cache path in a fresh temp directory, over a pool of 4 requests drawn from 8 grammars (two importing a module whose file content varies, the F4 pair) x 7 option sets: '
+          'completed construction, crash during the write (a strict prefix of the rewritten file is left), external truncation at a random offset, deletion, a complete file written for another request. After every '
+          'operation the real file is classified (absent / undecodable / complete file of request r, by its header line learned from lark itself) and compared with the verified state machine; every completed construction '
+          'must not raise and must behave (10 probe inputs: trees with positions or error class/position) like an uncached build of its own request and current import content. Non-trivial = the history contains a fault; '
+          'distinct by canonical hash.',
+     not_proved=['corruption of the pickled body that keeps framing and header valid is known finding F5 (no checksum) and is outside the modelled fault set; body byte flips are therefore not generated',
+                 'pickle (self-delimiting) and sha256/hash injectivity are parameters (Env.key_inj/hash_inj)'],
+     assumptions=['pickle.load fails on every strict prefix of a pickle', 'sha256 is injective on the inputs met', 'a non-atomic write may leave any prefix'],
+     level_text='Theorem cache_is_only_an_optimisation: for every history of constructions, crashes mid-write, truncations, deletions and foreign files from any reachable file state, every completed construction returns build(request); '
+                'the invariant is inductive; a completed construction leaves a valid file for its request; the key in the source is an injective encoding (extracted, by decide). The state machine is run against real cache '
+                'files operation by operation.',
+     level_note='Trusted: Lean kernel, standard axioms, harness. Modelled not verified: pickle framing, sha256, OS write atomicity (any prefix), logging.',
+     technique='Lean 4 refinement/invariant proof of the cache state machine + operation-by-operation correspondence on real cache files with injected truncations and crashes',
+     design_ref='DESIGN.md §5 C12')
